@@ -20,6 +20,8 @@ from .core import cstr, cZ, clist
 PID = 'C16'
 ZONES = ['UTC', 'America/New_York', 'Europe/London', 'Asia/Kolkata', 'Asia/Kathmandu', 'Australia/Lord_Howe', 'Pacific/Chatham',
          'Etc/GMT+12']
+# further zones for the wall-time / ISO round-trip family only: WEST of Greenwich with a fractional-hour offset, and southern-hemisphere DST
+EXTRA_ZONES = ['America/St_Johns', 'Pacific/Marquesas', 'America/Caracas', 'America/Santiago', 'Asia/Tehran']
 EPOCH = datetime.datetime(1970, 1, 1)
 US = datetime.timedelta(microseconds=1)
 UTC = datetime.timezone.utc
@@ -288,6 +290,11 @@ def gen_cases(tier, r):
             if r.random() < 0.15:
                 us += r.randrange(1000)
             add({'k': 'wall', 'tz': tz, 'us': us}, 'random-wall')
+    for tz in EXTRA_ZONES:
+        for _ in range(n_wall // 3):
+            y = r.choice([r.randint(1900, 2100), r.randint(1900, 2100), r.randint(100, 9000)])
+            us = dt_to_us(datetime.datetime(y, 1, 1)) + r.randrange(366 * 86400 * 1000) * 1000
+            add({'k': 'wall', 'tz': tz, 'us': us}, 'random-wall-extra-zone')
     # --- d + n, n + d, (d + n) - d
     n_add = 300 if quick else 6000
     for tz in ZONES[:4] if quick else ZONES:
@@ -435,7 +442,7 @@ def run(tier):
            'zoneinfo_vs_libc_disagreements': 0}
     nontrivial = set()
     corr_terms = []      # (term, description)
-    per_zone_rt = {z: 0 for z in ZONES}
+    per_zone_rt = {z: 0 for z in ZONES + EXTRA_ZONES}
 
     def fail(cls, task, **kw):
         chk.oracle_fail.append({'class': cls, 'input': task, 'source': str(task.get('args') or task.get('text') or task.get('us')), **kw})
